@@ -52,7 +52,15 @@ func c07Run(c c07Case) (*vlib.Failure, c07Stats) {
 	vmRestore()
 	var calls []c07Call
 	failAt := 0
+	// limit: the number of map calls after which the seam refuses to go on. It
+	// is set per operation to more than the operation can legitimately need, so
+	// it only ever stops a loop that maps pages the request does not cover.
+	limit, runaway := 0, false
 	mapFn = func(p mm.Page, f mm.Frame, fl PageTableEntryFlag) *kernel.Error {
+		if len(calls) >= limit {
+			runaway = true
+			return c07ErrMap
+		}
 		calls = append(calls, c07Call{uint64(p), uint64(f), uint64(fl)})
 		if failAt != 0 && len(calls) == failAt {
 			return c07ErrMap
@@ -112,6 +120,10 @@ func c07Run(c c07Case) (*vlib.Failure, c07Stats) {
 			if tooMany {
 				failAt = 1 // a correct implementation now has to report an error
 			}
+			limit, runaway = 8, false
+			if !tooMany {
+				limit = int(pages.Uint64()) + 8
+			}
 			var page mm.Page
 			var err *kernel.Error
 			pc := vlib.Catch(func() {
@@ -123,6 +135,9 @@ func c07Run(c c07Case) (*vlib.Failure, c07Stats) {
 			})
 			if pc.Panicked {
 				return vlib.Failf("%s: size %#x: %v", when, size, pc), rs
+			}
+			if runaway {
+				return vlib.Failf("%s: size %#x needs %s pages, but the operation went on mapping after %d map calls (first page %#x; stopped by the harness)", when, size, pages.String(), len(calls), calls[0].page), rs
 			}
 			if earlyReserveLastUsed > cursor {
 				return vlib.Failf("%s: the reservation cursor moved up (%#x -> %#x)", when, cursor, earlyReserveLastUsed), rs
